@@ -31,6 +31,8 @@ import JanetModel.Compile.SeqTheorem
 import JanetModel.Compile.SeqCore
 import JanetModel.Compile.SeqTail
 import JanetModel.Compile.SeqCallL
+import JanetModel.Compile.SeqCoreIf
+import JanetModel.Compile.SeqErr
 namespace JanetModel.Props.C02
 open JanetModel.Emit
 
@@ -480,6 +482,123 @@ theorem compile_correct_local_calls (p : Program) (f0 : Frame) (rest : List Fram
 
 /-- non-vacuity: a state in which the local `pr` holds the core function `print` -/
 example : lookupEnv [("pr", 0)] "pr" = some 0 ∧ readBox { boxes := #[.cfun "print"] } 0 = .cfun "print" := ⟨rfl, rfl⟩
+
+/-- **Compile correctness with `if`** — fragment `TF G true`:
+    `e ::= literal | symbol | (f e ...) | (do e ...) | (upscope e ...) | (def x e) | (if c e [e])` where the condition `c` of an `if` is a
+    call form (`IsCall`: its compiled slot is a fresh register, so `janetc_if` takes the jump path; the constant-condition folding —
+    condition a literal or a global symbol — is not covered yet, see `compile_correct_partial`); else-branch optional; value used or
+    dropped (a dropped `if` returns the constant-nil slot and materialises no value: the value clause is under `opts.drop = false`).
+    `janetc_if`: target register allocated first (value used), a block scope for the condition (names it defines are visible in both
+    branches, as `Lang/Sem` evaluates the branch in the condition's environment), `JUMP_IF_NOT cond` patched to the else label, the
+    then-branch in its own block scope, copy of its slot into the target, `JUMP` patched to the end (omitted when the value is
+    dropped and there is no else-branch), the else-branch likewise; all scopes popped, so the names visible afterwards are those
+    visible before.  The branch `Lang/Sem` does not evaluate has no semantic run: where its code ends and which state the next
+    compile step starts from comes from the compile-only shape theorem `tf_shape` (Compile/SeqShape.lean).  The VM run follows
+    `truthy` of the condition's value: falls through into the then-branch and jumps over the else-branch, or jumps to the
+    else-branch.  Extra hypothesis with respect to `compile_correct_nary_calls`: the source map is as long as the code at entry
+    (`janetc_emit` keeps them in step; needed by the folding path, carried already).  Conclusion `Correct2 … opts.drop …` unfolds to
+    the conclusion of `compile_correct_nary_calls` with the value clause `opts.drop = false → slotVal V regs' slot = v`. -/
+theorem compile_correct_if (p : Program) (f0 : Frame) (rest : List Frame) (V : Array Value) (P : List JanetModel.Emit.KConst)
+    (hP : P.length < 65536)
+    (hK : ∀ i, i < P.length → (p.defs.getD f0.defIdx default).consts.getD i .nil = litOf V (P.getD i .nil))
+    (FF : FloatFacts) (G : String → Prop)
+    (fuel : Nat) (e : Expr) (opts : Fopts) (c c' : CState) (slot : JSlot) (sc : Scope) (rs : List Scope) (pool : List JanetModel.Emit.KConst)
+    (ps : List (List JanetModel.Emit.KConst)) (n : Nat) (cur : Pos) (env env' : Env) (s s' : SS) (v : Value)
+    (ht : opts.tail = false) (hh : opts.hint = none)
+    (hs : c.scopes = sc :: rs) (hp : c.pools = pool :: ps) (hl : c.lim ≤ 240) (htop : sc.top = false)
+    (hm : c.map.length = c.buf.length) (hfrag : TF G true e)
+    (hcomp : cValue fuel opts e c = some (slot, c')) (hsem : eval n cur env e s = .ok (v, env') s')
+    (henv : EnvS G c.scopes env s.boxes.size sc.ra) :
+    Correct2 p f0 rest V P G opts.drop c c' slot sc rs pool ps env env' s s' v := by
+  have h := tf_correct_if p f0 rest V P hP hK FF G fuel e opts c c' slot sc rs pool ps n cur env env' s s' v ht hh hs hp hl htop
+    (fun _ => hm) hfrag hcomp hsem henv
+  rw [Bool.and_true] at h
+  exact h
+
+/-- non-vacuity: `(if (tuple x) (emit 1 2) (do (def y 3) (if (emit y) y)))` — both branch shapes, a nested `if` without else — is in the
+    fragment with `G = {tuple, emit}` -/
+example : TF (fun f => f = "tuple" ∨ f = "emit") true
+    (.form [.sym "if", .form [.sym "tuple", .sym "x"] {}, .form [.sym "emit", .lit (.num 1), .lit (.num 2)] {},
+            .form [.sym "do", .form [.sym "def", .sym "y", .lit (.num 3)] {},
+                   .form [.sym "if", .form [.sym "emit", .sym "y"] {}, .sym "y"] {}] {}] {}) := by
+  refine .iff _ _ _ {} rfl ⟨"tuple", _, {}, rfl, by decide⟩ (by decide) ?_ ?_ (fun e he => ?_)
+  · exact .call "tuple" _ {} (by decide) (by decide) (Or.inl rfl) (fun a ha => by
+      simp only [List.mem_cons, List.not_mem_nil, or_false] at ha; subst ha; exact .sym "x")
+  · refine .call "emit" _ {} (by decide) (by decide) (Or.inr rfl) (fun a ha => ?_)
+    simp only [List.mem_cons, List.not_mem_nil, or_false] at ha
+    rcases ha with rfl | rfl <;> exact .lit _ trivial
+  · simp only [List.mem_cons, List.not_mem_nil, or_false] at he
+    subst he
+    refine .doo _ _ (fun e he => ?_)
+    simp only [List.mem_cons, List.not_mem_nil, or_false] at he
+    rcases he with rfl | rfl
+    · exact .deff "y" _ {} (by decide) (.lit _ trivial)
+    · refine .iff _ _ _ {} rfl ⟨"emit", _, {}, rfl, by decide⟩ (by decide) ?_ (.sym "y") (fun e he => by simp at he)
+      exact .call "emit" _ {} (by decide) (by decide) (Or.inr rfl) (fun a ha => by
+        simp only [List.mem_cons, List.not_mem_nil, or_false] at ha; subst ha; exact .sym "y")
+
+/-- **The error outcome of a call**: `(f e₁ … eₙ)`, `f` a global core function, operands in the fragment `TF G false` and evaluating
+    to values (`hsa`), and the core function RAISES (`happ`: `applyFn … = .err ev epos s'`, a runtime error or a user error), so that
+    `Lang/Sem.eval` of the form is that error (first conjunct), attributed to the position of the call form, in the state after the
+    operands (same heap, same effect trace).  The compiled code is that of the non-error case.  From every configuration of the
+    activation satisfying the run-time invariant — wherever the segment sits in the function's code AND its map segment in the
+    function's source map (`MapAt`), the compiler's mapping cursor agreeing with `Lang/Sem`'s current position (`hcur`) — the VM
+    runs the operands and the pushes, reaches the JOP_CALL instruction in the WORLD `Lang/Sem` has at that point (`s'.st.world`:
+    the effects of the operands happened, nothing else), and ITS NEXT STEP RAISES THE SAME ERROR VALUE AT THE SAME POSITION:
+    `step … = .err ev epos …`.  (Errors raised inside an operand / statement / branch — propagation — are not proved yet.) -/
+theorem compile_correct_call_error (p : Program) (f0 : Frame) (rest : List Frame) (V : Array Value) (P : List JanetModel.Emit.KConst)
+    (hP : P.length < 65536)
+    (hK : ∀ i, i < P.length → (p.defs.getD f0.defIdx default).consts.getD i .nil = litOf V (P.getD i .nil))
+    (FF : FloatFacts) (G : String → Prop)
+    (fuel : Nat) (f : String) (args : List Expr) (pp : Pos) (opts : Fopts) (c c' : CState) (slot : JSlot) (sc : Scope) (rs : List Scope)
+    (pool : List JanetModel.Emit.KConst) (ps : List (List JanetModel.Emit.KConst)) (n2 : Nat) (cur : Pos) (env env_a : Env) (s s_a s' : SS)
+    (vs : List Value) (ev : Value) (epos : Pos)
+    (ht : opts.tail = false) (hh : opts.hint = none)
+    (hs : c.scopes = sc :: rs) (hp : c.pools = pool :: ps) (hl : c.lim ≤ 240) (htop : sc.top = false)
+    (hf : specials.contains f = false) (hna : f ≠ "apply") (hG : G f) (hargs : ∀ a, a ∈ args → TF G false a) (hcur : c.cur = cur)
+    (hcomp : cValue (fuel + 1) opts (.form (.sym f :: args) pp) c = some (slot, c'))
+    (hsa : evalArgs (n2 + 1) (posOf cur pp) env args s = .ok (vs, env_a) s_a)
+    (happ : applyFn (n2 + 1) (posOf cur pp) (.cfun f) vs s_a = .err ev epos s')
+    (henv : EnvS G c.scopes env s.boxes.size sc.ra) :
+    eval (n2 + 2) cur env (.form (.sym f :: args) pp) s = .err ev epos s' ∧ epos = posOf cur pp ∧ s' = s_a ∧
+    ∃ (mx : Nat) (more : List JanetModel.Emit.KConst) (seg : List CI) (segm : List Pos),
+      c'.buf = c.buf ++ seg ∧ c'.map = c.map ++ segm ∧ c'.pools = (pool ++ more) :: ps ∧ PrefA c.vals c'.vals ∧
+      (∃ sc', c'.scopes = sc' :: rs ∧ sc'.ra.max = mx) ∧
+      ∀ (k : Cfg), k.w = s.st.world → k.args = #[] → EnvD c.scopes env s k.regs →
+        CodeAt (p.defs.getD f0.defIdx default).code k.pc seg → MapAt (p.defs.getD f0.defIdx default).smap k.pc segm →
+        PrefL (pool ++ more) P → PrefA c'.vals V → mx < k.regs.size →
+        ∃ (regs' A : Array Value) (pc' : Nat),
+          Reach p (inj f0 rest k) (inj f0 rest { regs := regs', pc := pc', args := A, w := s'.st.world }) ∧ regs'.size = k.regs.size ∧
+          step p (inj f0 rest { regs := regs', pc := pc', args := A, w := s'.st.world }) =
+            .err ev epos (inj f0 rest { regs := regs', pc := pc', args := A, w := s'.st.world }) := by
+  have hgl : lookupEnv env f = none := by
+    rcases henv.2 f with ⟨_, h⟩ | ⟨sl, r, a', u, h, _⟩
+    · exact h
+    · rw [henv.1 f hG] at h; exact absurd h (by simp)
+  have hsemE : eval (n2 + 2) cur env (.form (.sym f :: args) pp) s = .err ev epos s' := by
+    rw [eval_call (n2 + 1) cur env f args pp s hf, eval_sym_global n2 _ env f s hgl]
+    simp only [hsa, happ]
+  rw [cValue_call_o fuel opts ht hh f args pp c hf] at hcomp
+  have hq : curAt c pp = { c with cur := posOf cur pp } := by
+    unfold curAt posOf
+    split
+    · rfl
+    · rw [← hcur]
+  cases hcc : cCall (cValue fuel) {} (.sym f) args (curAt c pp) with
+  | none => rw [hcc] at hcomp; simp [fin] at hcomp
+  | some res =>
+    obtain ⟨slot0, cq⟩ := res
+    rw [hcc] at hcomp
+    simp only [fin, Option.some.injEq, Prod.mk.injEq] at hcomp
+    obtain ⟨hsl, hc'⟩ := hcomp
+    subst hsl hc'
+    rw [hq] at hcc
+    obtain ⟨e1, e2, mx, more, seg, segm, b1, b2, b3, b4, b5, vm⟩ :=
+      err_call_core p f0 rest V P hP hK FF G false false fuel
+        (tf_correct p f0 rest V P hP hK FF G false false (fun h => absurd h (by simp)) fuel)
+        f args hna hG hargs { c with cur := posOf cur pp } cq slot0 sc rs pool ps n2 env env_a s s_a s' vs ev epos hs hp hl htop
+        (fun h => absurd h (by simp)) hcc hsa happ henv
+    exact ⟨hsemE, e1, e2, mx, more, seg, segm, b1, b2, b3, b4, b5, vm⟩
 
 /-- **Compile correctness, tail position (calls)**: a call `(f e₁ … eₙ)` of a global core function (`G f`, not `apply`, not a
     special form), operands in the fragment `TF G false`, compiled with the TAIL flag in a scope that is not the top level
